@@ -175,6 +175,9 @@ func (r *Receiver) SegmentHandlerFunc(w http.ResponseWriter, req *http.Request) 
 			}
 			seg := chunk.Segments[0]
 			moof := seg.Fragments[0].Moof
+			if moof == nil || moof.Mfhd == nil || moof.Traf == nil || moof.Traf.Tfhd == nil || moof.Traf.Tfdt == nil {
+				return fmt.Errorf("chunk %d lacks moof, mfhd, traf, tfhd or tfdt box", rsd.chunkNr)
+			}
 			ch.mu.RLock()
 			trd, ok := ch.trDatas[trName]
 			ch.mu.RUnlock()
